@@ -74,9 +74,18 @@ package app
 //@   ensures [C10:first_inbound_match] result1 ==> let i := rangeindex1 :: 0 <= i && i < len(s.routes) && result0 == s.routes[i].Path && inboundRoute(s.routes[i].ChannelType) && routeMatches(s.routes[i], r, requestPath) && (forall j int :: 0 <= j && j < i ==> !(inboundRoute(s.routes[j].ChannelType) && routeMatches(s.routes[j], r, requestPath)))
 //@   ensures [C10:none_means_no_match] !result1 ==> result0 == "" && forall j int :: 0 <= j && j < len(s.routes) ==> !(inboundRoute(s.routes[j].ChannelType) && routeMatches(s.routes[j], r, requestPath))
 
+//@ spec
+//@ pred routeHMACConfigured(rt config.CompiledRoute) := len(rt.AuthHMACSecrets) > 0 || len(rt.AuthHMACSecretRefs) > 0
+//@ pred authInstalled(rt config.CompiledRoute, basic map[string]*ingress.BasicAuth, forward map[string]*ingress.ForwardAuth, hm map[string]*ingress.HMACAuth) := (len(rt.AuthBasic) > 0 ==> rt.Path in basic && basic[rt.Path] != nil) && (rt.AuthForward.Enabled ==> rt.Path in forward && forward[rt.Path] != nil && forward[rt.Path].URL == trim(rt.AuthForward.URL)) && (routeHMACConfigured(rt) ==> rt.Path in hm && hm[rt.Path] != nil)
+
 //@ func (*runtimeState).loadAuth
 //@   requires s != nil
+//@   requires forall j int, k int :: 0 <= j && j < k && k < len(compiled.Routes) ==> compiled.Routes[j].Path != compiled.Routes[k].Path
 //@   modifies *
+//@   stable basicByRoute, forwardByRoute, hmacByRoute, ingress.ForwardAuth.URL, compiled.Routes[*], maps(map[string]string)
+//@   loop 6 invariant [configured_authenticators_installed_so_far] rangeindex < len(compiled.Routes) && basicByRoute != nil && forwardByRoute != nil && hmacByRoute != nil && forall k int :: 0 <= k && k <= rangeindex ==> authInstalled(compiled.Routes[k], basicByRoute, forwardByRoute, hmacByRoute)
+//@   loop 9 invariant [installed_facts_kept_while_inheriting] forall k int :: 0 <= k && k < len(compiled.Routes) ==> authInstalled(compiled.Routes[k], basicByRoute, forwardByRoute, hmacByRoute)
+//@   ensures [C08:every_configured_authenticator_is_installed_fail_closed] result == nil ==> forall k int :: 0 <= k && k < len(compiled.Routes) ==> authInstalled(compiled.Routes[k], s.basicByRoute, s.forwardByRoute, s.hmacByRoute)
 //@   sets loadOK := result == nil
 //@   ensures [C18:failed_load_enters_no_write_section] result != nil ==> writeSections == old(writeSections)
 //@   ensures [C18:successful_load_is_one_write_section] result == nil ==> writeSections == old(writeSections) + 1
@@ -186,12 +195,19 @@ package app
 //@   trusted
 //@ func secrets.(Set).Validate
 //@   trusted
+//@ func pullapi.BearerTokenAuthorizer
+//@   trusted
+//@ func workerapi.BearerTokenAuthorizer
+//@   trusted
+//@ func admin.BearerTokenAuthorizer
+//@   trusted
+// (proved in internal/ingress when that package is loaded; assumed here otherwise)
 //@ func ingress.NewBasicAuth
 //@   trusted
-//@   ensures result == nil || fresh(result)
+//@   ensures (len(users) > 0 ==> result != nil && fresh(result)) && (len(users) == 0 ==> result == nil)
 //@ func ingress.NewForwardAuth
 //@   trusted
-//@   ensures result != nil && fresh(result)
+//@   ensures result != nil && fresh(result) && result.URL == trim(url)
 //@ func ingress.NewHMACAuth
 //@   trusted
 //@   ensures result != nil && fresh(result)
